@@ -245,7 +245,7 @@ Lemma index_find_probes_total dbg be ix id :
   exists r c, index_find_probes dbg be ix id = Ok (r, c) /\ c <= ix_slot_count ix.
 Proof.
   intros Hs. unfold index_find_probes.
-  destruct (ix_slot_count ix =? 0) eqn:E0.
+  destruct ((ix_slot_count ix =? 0) || (id =? 0)) eqn:E0.
   - exists None, 0. split; [reflexivity|lia].
   - rewrite chk_sub_ok by lia. cbn [bind].
     set (mask := ix_slot_count ix - 1).
@@ -263,6 +263,10 @@ Proof.
   intros Hs. destruct (index_find_probes_total dbg be ix id Hs) as (r & c & Hr & _).
   unfold index_find. rewrite Hr. exists r. reflexivity.
 Qed.
+
+(* id 0 is the unused-slot marker: never found, whatever the table *)
+Lemma index_find_zero dbg be ix : index_find dbg be ix 0 = Ok None.
+Proof. unfold index_find, index_find_probes. rewrite orb_true_r. reflexivity. Qed.
 
 (* ------------------------------------------------------------------ tables built by insertion *)
 
@@ -484,12 +488,12 @@ Section FindCorrect.
         eapply IH; [|exact E]. apply N.mod_lt. exact slots_nz.
   Qed.
 
-  Lemma index_find_probes_unfold id :
+  Lemma index_find_probes_unfold id : id <> 0 ->
     index_find_probes dbg be ix id =
       find_loop dbg be ix id mask (probe_step (2 ^ k) id) (N.to_nat (2 ^ k)) (probe (2 ^ k) id 0).
   Proof.
-    unfold index_find_probes. rewrite Hsc.
-    destruct (2 ^ k =? 0) eqn:E; [lia|].
+    intros Hid0. unfold index_find_probes. rewrite Hsc.
+    destruct ((2 ^ k =? 0) || (id =? 0)) eqn:E; [lia|].
     rewrite chk_sub_ok by lia. cbn [bind]. fold mask. unfold mask.
     rewrite !land_mask, probe_0 by exact slots_nz.
     unfold probe_step. rewrite N.shiftr_div_pow2. reflexivity.
@@ -499,7 +503,7 @@ Section FindCorrect.
     placed (2 ^ k) t -> id <> 0 ->
     (index_find dbg be ix id = Ok (Some row) <-> In (id, row) t).
   Proof.
-    intros Hpl Hid. unfold index_find. rewrite index_find_probes_unfold. split.
+    intros Hpl Hid. unfold index_find. rewrite index_find_probes_unfold by exact Hid. split.
     - intros Hf.
       destruct (find_loop dbg be ix id mask (probe_step (2 ^ k) id) (N.to_nat (2 ^ k)) (probe (2 ^ k) id 0))
         as [[res cnt]| | |] eqn:E; try discriminate.
@@ -518,7 +522,7 @@ Section FindCorrect.
     intros Hid Habs.
     assert (Hs : ix_slot_count ix < 2 ^ 32) by (rewrite Hsc; exact slots_lt).
     destruct (index_find_total dbg be ix id Hs) as [[row|] Hr]; [|exact Hr].
-    exfalso. unfold index_find in Hr. rewrite index_find_probes_unfold in Hr.
+    exfalso. unfold index_find in Hr. rewrite index_find_probes_unfold in Hr by exact Hid.
     destruct (find_loop dbg be ix id mask (probe_step (2 ^ k) id) (N.to_nat (2 ^ k)) (probe (2 ^ k) id 0))
       as [[res cnt]| | |] eqn:E; try discriminate.
     cbn [bind] in Hr. inversion Hr; subst.
